@@ -146,6 +146,10 @@ func (c *Ctx) c05Sites(rp map[*ssa.Function]bool) (sites []readSite) {
 				continue
 			}
 			css := c.librarySites(s.fn)
+			if s.fn.Parent() != nil {
+				// a read closure: its call sites are the calls of the function value
+				css = c.closureCallSites(s.fn)
+			}
 			if len(css) == 0 || len(css) > 4 {
 				next = append(next, s)
 				continue
